@@ -190,8 +190,17 @@ func (m *C09) OnBlock(e *Env, blk *world.BlockRecord) {
 	for i := 0; i < 3; i++ {
 		n := 2 + e.Ch.Intn("c09.diff.n", 5)
 		w := make([]uint64, n)
+		huge := e.Ch.Bool("c09.diff.huge", 300)
 		for k := range w {
 			w[k] = uint64(1 + e.Ch.Intn("c09.diff.w", 4))
+			if huge {
+				// totals between 2^62 and 1.5*2^63: "draw mod total" is far from uniform there and any re-draw, widening or
+				// signed conversion in the sampler changes the result
+				w[k] = 1<<60 + e.Ch.U64("c09.diff.hugew")>>4 // <= 2^61 each, at most 6 of them: the total stays below 2^64 (the sampler panics on overflow by design)
+			}
+		}
+		if huge {
+			e.St.Probe("c09_sampler_differential_draws_with_totals_near_2^63")
 		}
 		cnt := 1 + e.Ch.Intn("c09.diff.cnt", n)
 		tries := 1 + e.Ch.Intn("c09.diff.tries", 4)
